@@ -159,10 +159,7 @@ func vSecondHello(st vC06State, variant int) (rec []byte, wantMsg []byte, class 
 // change_cipher_spec, application data, other handshake), checked step by step
 // against a reference monitor of the statement.
 func verifC06History() {
-	steps := 3
-	if vTier() > 0 {
-		steps = 4
-	}
+	steps := 3 // (the thorough tier widens the alphabets - split points, near-HRR positions - not the history)
 	st, tr, c := vC06Setup()
 	vReach("setup")
 	hrrSeen := 0      // HelloRetryRequests written while the write side was inspected
@@ -197,7 +194,7 @@ func verifC06History() {
 			case 2:
 				rec = vRecord(20, 0x0303, []byte{1})
 			case 3:
-				rec = vRecord(23, 0x0303, vBytes(2))
+				rec = vRecord(23, 0x0303, vBytes(2*vInt(0, 1))) // application data, possibly with an empty fragment
 				writeLive = false
 			case 4:
 				rec = vRecord(22, 0x0303, vCat([]byte{8}, vU24(2), vBytes(2)))
@@ -238,7 +235,8 @@ func verifC06History() {
 			isHello = true
 			variant := 0 // a further hello (third of the connection) is an honest one: it must still not be processed
 			if hellos == 1 {
-				variant = vInt(0, 14)
+				// quick tier: one variant per outcome class (the abort discipline of all 14 ill-formed variants is verifC04RetryRules' job)
+				variant = []int{0, 1, 5, 9, 10, 12, 2, 3, 4, 6, 7, 8, 11, 13, 14}[vInt(0, 5+9*vTier())]
 			}
 			rec, wantMsg, class, desc = vSecondHello(st, variant)
 			if sharedSeals > 0 {
